@@ -6,7 +6,7 @@ VERIF = os.path.dirname(os.path.dirname(os.path.abspath(__file__)))
 runs = {}
 for f in sys.argv[1:]:
     for line in open(f, errors="replace"):
-        m = re.match(r"^((?:R[234]-)?C\d+-m\d+) (C\d+) rc=(\d+)\s*(.*)$", line.rstrip())
+        m = re.match(r"^((?:R[2345]-)?C\d+-m\d+) (C\d+) rc=(\d+)\s*(.*)$", line.rstrip())
         if m:
             runs.setdefault(m.group(1), {})[m.group(2)] = (int(m.group(3)), m.group(4).strip())
 rows = []
